@@ -475,6 +475,19 @@ def exec_stdio_routed_case(ctx, case: Dict[str, Any]) -> None:
                     outcomes[key] = ("nothing", None)
                     break
 
+        async def caller_preregistered(name, client, i, recv, rid):
+            # the stream was registered before any request went out: send, then wait
+            await client.send_json(create_request("tools/call", {"tag": f"{name}-caller-{i}"}, id=rid))
+            with anyio.move_on_after(TIMEOUT) as scope:
+                try:
+                    outcomes[f"{name}-{i}"] = ("got", await recv.receive())
+                except BaseException as e:  # noqa
+                    if isinstance(e, (KeyboardInterrupt, SystemExit, asyncio.CancelledError)):
+                        raise
+                    outcomes[f"{name}-{i}"] = ("raise", e)
+            if scope.cancelled_caught:
+                outcomes[f"{name}-{i}"] = ("nothing", None)
+
         async def connection(name, started, go):
             async with SC.StdioClient(StdioParameters(command=f"scripted-{name}")) as client:
                 # (an application that uses the per-request API only does not read the general stream)
@@ -483,9 +496,19 @@ def exec_stdio_routed_case(ctx, case: Dict[str, Any]) -> None:
                 started.set()
                 await go.wait()
                 tasks = []
-                for i in range(n):
-                    tasks.append(asyncio.create_task(caller(name, client, i), name=f"{name}-caller-{i}"))
-                    await asyncio.sleep(0.01)
+                if case.get("registration") == "up_front":
+                    # every caller's stream is registered first, then the requests go out together
+                    regs = []
+                    for i in range(n):
+                        rid: Any = str(i + 1) if case["ids"] == "str" else i + 1
+                        regs.append((i, client.new_request_stream(str(rid)), rid))
+                    for i, recv, rid in regs:
+                        tasks.append(asyncio.create_task(caller_preregistered(name, client, i, recv, rid), name=f"{name}-caller-{i}"))
+                else:
+                    for i in range(n):
+                        tasks.append(asyncio.create_task(caller(name, client, i), name=f"{name}-caller-{i}"))
+                        if case.get("registration") != "together":
+                            await asyncio.sleep(0.01)       # ("together": all callers start in the same loop turn)
                 await asyncio.gather(*tasks)
                 d.cancel()
 
@@ -615,6 +638,12 @@ def run(ctx):
             case = {"n": n, "perm": list(range(n)), "connections": 1, "ids": "str", "rounds": rounds, "via": "stdio_routed"}
             if ctx.mine():
                 exec_stdio_routed_case(ctx, case)
+    for n in (2, 3, 4):
+        for reg in ("up_front", "together"):
+            for perm in (list(range(n)), list(range(n))[::-1]):
+                case = {"n": n, "perm": perm, "connections": 1, "ids": "str", "registration": reg, "via": "stdio_routed"}
+                if ctx.mine():
+                    exec_stdio_routed_case(ctx, case)
     for n in (1, 2, 3):
         for conns in (1, 2):
             case = {"n": n, "perm": list(range(n))[::-1], "connections": conns, "ids": "str", "srv_req_same_id": True, "via": "stdio_routed"}
